@@ -130,6 +130,15 @@ def apply_sections(body, sections, qual, g):
             if n < 1 or n > len(lp):
                 raise RuleMismatch("%s: loop #%d not found (%d loops)" % (qual, n, len(lp)))
             inserts.append((lp[n - 1][1], "\n" + text + "\n"))
+        elif kind == "loopend":
+            if lp is None:
+                lp = rw.loops(body)
+            n = args
+            if n < 1 or n > len(lp):
+                raise RuleMismatch("%s: loop #%d not found (%d loops)" % (qual, n, len(lp)))
+            inserts.append((match_close(body, lp[n - 1][1]), "\n" + text + "\n"))
+        elif kind == "tail":
+            inserts.append((len(body) - 1, "\n" + text + "\n"))
         elif kind == "at":
             pat, nth, where = args
             ms = rw.find_matches(body, pat)
@@ -191,6 +200,10 @@ def parse_fn_block(lines):
                 cur = ["spec", None, ""]
             elif words[0] == "loop":
                 cur = ["loop", int(words[1]), ""]
+            elif words[0] == "tail":
+                cur = ["tail", None, ""]
+            elif words[0] == "loopend":
+                cur = ["loopend", int(words[1]), ""]
             elif words[0] == "at":
                 nth = 1
                 where = "before"
@@ -312,7 +325,10 @@ def gen_adt(g, kind, words):
         if derive:
             g.add("#[derive(%s)]" % derive)
         g.add("// <extracted %s %s %s>" % (path, kind, name))
-        g.add(emit_trim(head) + " {")
+        headtxt = re.sub(r"^pub\s*\([^)]*\)\s*", "", emit_trim(head))
+        if not headtxt.startswith("pub "):
+            headtxt = "pub " + headtxt
+        g.add(headtxt + " {")
         for f in out:
             g.add("    " + " ".join(f.split()) + ",")
         g.add("}")
@@ -358,7 +374,10 @@ def gen_const(g, words):
     toks = extract.find_const(path, pos[1])
     toks, _ = rw.rule_R5(list(toks))
     g.add("// <extracted %s const/type %s>" % (path, pos[1]))
-    g.add(emit_trim(toks))
+    txt = re.sub(r"^pub\s*\([^)]*\)\s*", "", emit_trim(toks))
+    if not txt.startswith("pub "):
+        txt = "pub " + txt
+    g.add(txt)
 
 
 def generate(unit_name, seen=None):
